@@ -38,9 +38,22 @@ Theorem C13_append_option_prefix : forall screaming name nm pfx opts o,
 Proof. intros screaming. exact (cv_enum_snoc screaming screaming screaming). Qed.
 Print Assumptions C13_append_option_prefix.
 
+(* ... and the only append of one option that does not keep every earlier value: an enum WITHOUT
+   options receiving an option that ends in UNSPECIFIED under a name of its own (that option is
+   then the first one, and a first option ending in UNSPECIFIED is taken as the zero value).
+   Exactness of the class of the recorded finding: `option UNSPECIFIED` / `<PREFIX>UNSPECIFIED`
+   (the implicit zero value spelled out) and every other option are harmless. *)
+Theorem C13_append_option_exact : forall screaming name nm pfx opts o,
+  enum_ext (cv_enum screaming name (mkEnum nm pfx opts)) (cv_enum screaming name (mkEnum nm pfx (opts ++ [o]))) <->
+  (opts <> [] \/ unspec o = false \/
+   value_name (enum_prefix screaming name pfx) o = enum_prefix screaming name pfx ++ unspecified).
+Proof. intros screaming. exact (cv_enum_snoc_exact screaming screaming screaming). Qed.
+Print Assumptions C13_append_option_exact.
+
 (* an append at any address inside a declaration - following inline types (through array and
    map items) and nested declarations to any depth; the action is a field at the end of the
-   message reached, an option at the end of the (non-empty) enum reached, or a nested
+   message reached, an option at the end of the enum reached (J5sEdit.enum_snoc: not an option
+   ending in UNSPECIFIED at the end of an enum without options), or a nested
    declaration at the end of the message reached - extends the message in the sense of
    J5sEdit.props_ext / nesteds_ext *)
 Theorem C13_append_anywhere_extends : forall a path ps subs,
@@ -124,8 +137,11 @@ Definition C13_full_statement : Prop :=
     compile bd pkg = Ok D ->
     exists D', compile (apply_edits bd es) pkg = Ok D' /\ files_ext D D'.
 
-(* partial: holds for edit sequences in which options are appended only to enums that already
-   have options (edit_ok inside seq_ok); see C13_append_to_empty_enum_refuted *)
+(* partial in exactly one class: seq_ok (edit_ok / J5sEdit.enum_append_ok) excludes an option
+   ending in UNSPECIFIED appended to an enum WITHOUT options; every other append - also of
+   options to enums without options - is covered.  For the excluded class see
+   C13_append_to_empty_enum_refuted; that nothing else about enums is excluded:
+   C13_append_option_exact, C13_empty_enum_other_options_preserve *)
 Theorem C13_full : C13_full_statement.
 Proof. exact c13_full. Qed.
 Print Assumptions C13_full.
@@ -146,12 +162,26 @@ Theorem C13_deep_edits_preserve :
 Proof. exact deep_edits_preserve. Qed.
 Print Assumptions C13_deep_edits_preserve.
 
+(* non-vacuity of C13_full on enums without options: `enum Status {}` + `option ACTIVE` +
+   `option OLD_UNSPECIFIED` (the latter now appended to an enum that has options) is a sequence
+   of applicable edits; STATUS_UNSPECIFIED = 0 stays, ACTIVE = 1, OLD_UNSPECIFIED = 2 *)
+Theorem C13_empty_enum_other_options_preserve :
+  seq_ok w_empty_enum w_empty_enum_ok_edits /\
+  exists D D', compile w_empty_enum (b "foo.v1") = Ok D /\
+               compile (apply_edits w_empty_enum w_empty_enum_ok_edits) (b "foo.v1") = Ok D' /\
+               files_ext D D' /\
+               zero_value D' = Some (b "STATUS_UNSPECIFIED", 0) /\
+               map en_vals (flat_map fl_enums D') =
+                 [[(b "STATUS_UNSPECIFIED", 0); (b "STATUS_ACTIVE", 1); (b "STATUS_OLD_UNSPECIFIED", 2)]].
+Proof. exact empty_enum_other_option_preserves. Qed.
+Print Assumptions C13_empty_enum_other_options_preserve.
+
 (* REFUTED for enums without options (known finding, replayed on the real compiler in every run):
    `enum Status {}` compiles to STATUS_UNSPECIFIED = 0; after appending the option OLD_UNSPECIFIED
    - which is then the first option, and a first option ending in UNSPECIFIED is the zero value -
    value 0 is called STATUS_OLD_UNSPECIFIED.  Both versions are valid and compile; the previously
-   generated enum value changed its name.  C13_full excludes the case through seq_ok (an
-   option is appended only to an enum that has options). *)
+   generated enum value changed its name.  C13_full excludes exactly this case through seq_ok
+   (enum_append_ok: not an option ending in UNSPECIFIED to an enum without options). *)
 Theorem C13_append_to_empty_enum_refuted :
   valid w_empty_enum = true /\ valid (apply_edits w_empty_enum w_empty_enum_edit) = true /\
   exists D D', compile w_empty_enum (b "foo.v1") = Ok D /\
